@@ -1,8 +1,11 @@
 package main
 
 import (
+	"encoding/json"
 	"fmt"
 	"go/token"
+	"os"
+	"path/filepath"
 	"strings"
 
 	"golang.org/x/tools/go/ssa"
@@ -291,3 +294,23 @@ func ruleCommitSet(c *Ctx) {
 }
 
 var _ = strings.HasPrefix
+
+// explanationOf: the claim text of the property as registered in MANIFEST (manifest_texts.json keeps the
+// current wording, including clauses added after the registry's short Explain string was written).
+func explanationOf(vdir string, pr *Property) string {
+	base := pr.Explain + " NOT COVERED: " + pr.NotCov
+	b, err := os.ReadFile(filepath.Join(vdir, "manifest_texts.json"))
+	if err != nil {
+		return base
+	}
+	var m map[string]struct {
+		Text string `json:"text"`
+	}
+	if json.Unmarshal(b, &m) != nil {
+		return base
+	}
+	if t, ok := m[pr.ID]; ok && t.Text != "" {
+		return t.Text + " NOT COVERED: " + pr.NotCov
+	}
+	return base
+}
